@@ -123,6 +123,34 @@ func runC32(c *Ctx) {
 		c.check(strings.HasPrefix(render(st.Store.Val), "network.newSecureKey("), "C32.session-binding", "Peer.secureKey in "+fnName(st.Fn), st.Store.Pos(), "fresh ephemeral key", "secureKey set to "+render(st.Store.Val))
 	}
 
+	// ---- the session secret exists before anything is signed over it: a failed
+	// key setup ends the handshake for every suite
+	if ap := c.mustFn(pkg, "Authenticator", "applySecureConn"); ap != nil {
+		ns := 0
+		for _, e := range successAlts(ap) {
+			ns++
+			c.requireGuard("C32.session-binding", "applySecureConn succeeds ⊢ key setup succeeded", e.pos(), e.Guards, wSame("setup() == nil", `\.secureKey\.setup\(`, `^nil$`))
+		}
+		if ns == 0 {
+			c.undecided("C32.session-binding", "applySecureConn", ap.Pos(), "no success exit")
+		}
+	}
+	if su := c.mustFn(pkg, "secureKey", "setup"); su != nil {
+		for _, e := range successAlts(su) {
+			r := render(e.Results[0])
+			if strings.HasSuffix(r, ".hkdf($3)") {
+				c.requireGuard("C32.session-binding", "secret derived only from a valid peer key", e.pos(), e.Guards, wSame("setPeerPublicKey() == nil", `\.setPeerPublicKey\(`, `^nil$`))
+			} else {
+				c.violate("C32.session-binding", "secureKey.setup success without deriving the secret", e.pos(), "setup can succeed without running the key derivation: the session secret stays empty and signatures are not bound to the session")
+			}
+		}
+	}
+	// ---- an identity object never changes after it was handed out
+	for _, st := range fieldStores(pf, "peerID", "Address") {
+		_, fresh := st.Addr.X.(*ssa.Alloc)
+		c.check(fresh, "C32.id-after-proof", "peerID.Address is set only on a fresh object ("+fnName(st.Fn)+")", st.Store.Pos(), "composite literal", "an existing peerID object is re-addressed: every peer holding that pointer silently takes another identity")
+	}
+
 	// ---- verify
 	if vs := c.mustFn(pkg, "Authenticator", "VerifySignature"); vs != nil {
 		ns := 0
